@@ -111,3 +111,40 @@ def multi_specs(tier):
             continue
         out.append(spec('multi', names, x0, [menu[i] for i in combo], PARAMS))
     return out
+
+
+def big_specs(tier, delays_ok=True, rules_ok=True, hill_ok=True):
+    """beyond the small family: 8 species whose sort order differs from the declaration order, 6-12 reactions of every
+    propensity type, 14 named parameters, up to 4 rules"""
+    names = ['zeta', 'alpha', 'Mid', 'x_9', 'Beta', 'y10', 'gamma_c', 'W']
+    x0 = dict(zip(names, [2.0, 3.0, 1.5, 4.0, 0.5, 6.0, 1.0, 2.5]))
+    x0r = dict(x0, X=0.0, Y=0.0)
+    P = dict(PARAMS, k2=0.4, k3=2.0, k4=0.9, k5=0.05, K2=1.5, n2=3.0)
+    z, a, M, x9, Be, y10, gc, W = names
+    menu = [
+        ma([z], [a], 'kf'), ma([a, a], [M], 'k2'), ma([], [z], 'k3'), ma([x9, Be], [y10], 0.7), ma([y10], [x9, Be], 'k4'),
+        hill('hillpositive', [M], [], 'kf', 'KK', 'nn', a), hill('hillnegative', [], [gc], 'k3', 'K2', 'n2', W),
+        hill('proportionalhillpositive', [gc], [gc, W], 'k4', 'KK', 'n2', y10, gc),
+        hill('proportionalhillnegative', [W], [], 'k2', 'K2', 'nn', z, W),
+        gen([a], [z, z], ('/', ID(a), ('+', NUM(1), ID(M)))), gen([W], [x9], ('*', ID('k5'), ('*', ID(W), ('^', ID(y10), NUM(2))))),
+        ma([z, z, a], [M, M, M], 'k5'), ma([gc, W, x9, Be], [y10, y10], 0.01),
+    ]
+    if not hill_ok:
+        menu = [r_ for r_ in menu if 'hill' not in r_['kind']]
+    if delays_ok:
+        menu += [dict(ma([z, M], [M], 0.9), delay=dict(type='fixed', delay='tau', reactants=[], products=[a, a])),
+                 dict(ma([Be], [], 'k2'), delay=dict(type='gamma', k='sh', theta='sc', reactants=[W], products=[gc, Be])),
+                 dict(ma([y10], [y10, W], 'k4'), delay=dict(type='gaussian', mean='mu', std='sd', reactants=[], products=[x9]))]
+    rules = [dict(type='additive', target='X', sources=[z, a, W], freq='repeated'),
+             dict(type='assignment', target='Y', rhs=('+', ('*', NUM(2), ID(y10)), ID('KK')), freq='dt'),
+             dict(type='assignment', target='k5', rhs=('/', ID(Be), NUM(40)), freq='repeated'),
+             dict(type='assignment', target='K2', rhs=('+', NUM(1), ID(gc)), freq='start')]
+    out = []
+    n = len(menu)
+    for size in ((6, n) if tier == 'quick' else (5, 6, 8, 10, n)):
+        for rot in range(0, n, 4 if tier == 'quick' else 1):
+            rx = [menu[(rot + i) % n] for i in range(size)]
+            out.append(spec('big/%d' % size, names, x0, rx, P))
+            if rules_ok:
+                out.append(spec('big-rules/%d' % size, names + ['X', 'Y'], x0r, rx[::-1], P, rules[:2 + (rot % 3)]))
+    return out
